@@ -39,6 +39,8 @@ Supported subset — nothing more:
     defaults; an argument that cannot be translated (a message string, …) is opaque and may only reach no-ops;
   * the update block of run() may be an `if` or ONE call statement of a helper (`self._update_circuit(result, z_out,
     y_out)`): the helper is inlined with its parameters bound to the request's `result` / `z_out` / `y_out` objects;
+  * a local bound to a call-free value / condition (`vetoed = z_out.action_type == "BLOCK" or …`) becomes a Lean `let` at
+    that point;
   * no-ops: console `print`, `logger.*` / `logging.*` calls, `self._record_result(...)` (audit log; checked not to
     touch the breaker), a local bound to `LoopResult(...)`, a fresh local bound to a call-free / pure-formatting
     expression (a message looked up in a table; using it in a condition later is `unknown name`: fail closed) — each
@@ -559,6 +561,21 @@ class Tr:
         if isinstance(st, ast.If):
             return self.branch(st.test, env, ind, lambda e, i: self.body(list(st.body) + rest, e, i),
                                lambda e, i: self.body(list(st.orelse) + rest, e, i))
+        if (isinstance(st, ast.Assign) and len(st.targets) == 1 and isinstance(st.targets[0], ast.Name)
+                and st.targets[0].id not in {k[0] for k in RUN_OBJECTS} and not self_calls_in(st.value)):
+            # a local bound to a call-free value / condition over the breaker state, the configuration and the request's
+            # flags and verdicts: a Lean `let` at this very point (fields assigned later do not change it)
+            name = st.targets[0].id
+            try:
+                code, t = self.val(st.value, env)
+            except Unsupported:
+                code, t = self.cond(st.value, env), "bool"
+            lean_t = {"bool": "Bool", "nat": "Nat", "int": "Int", "cstate": "CState", "cls": "Cls", "time": "Nat", "dur": "Int"}.get(t)
+            if lean_t is None or isinstance(code, list):
+                bad(st, f"local {name} bound to a {t}")
+            var = f"l_{name}"
+            env2 = dict(env, locals=dict(env["locals"], **{name: (var, t)}))
+            return f"{pad}let {var} : {lean_t} := {code}\n{self.body(rest, env2, ind)}"
         if isinstance(st, (ast.Assign, ast.AugAssign)):
             tgt = st.targets[0] if isinstance(st, ast.Assign) and len(st.targets) == 1 else getattr(st, "target", None)
             if tgt is None or not is_self(tgt) or tgt.attr not in FIELDS:
